@@ -13,5 +13,15 @@ for i in range(1, 21):
     out[R.id] = reference.snapshot(R, repo)
     if R.error:
       print('WARNING: %s has an analysis error on the reference tree: %s' % (R.id, R.error))
+# digest of every function (and module) of every module any rule loaded: lets a later run compare units it consults only there
+table = {}
+repo = Repo('/repo')
+rels = sorted({k.split('|')[1] for v in out.values() for k in v['units']})
+for rel in rels:
+  m = repo._load(rel)
+  table[reference.unit_key(('mod', rel))] = reference.unit_digest(repo, ('mod', rel))
+  for q in m._funcs:
+    table[reference.unit_key(('func', rel, q))] = reference.unit_digest(repo, ('func', rel, q))
+out['__all_units__'] = table
 json.dump(out, open(reference.PATH, 'w'), indent=0, sort_keys=True)
-print('rules: %d, units: %d' % (len(out), sum(len(v['units']) for v in out.values())))
+print('rules: %d, units: %d, table: %d' % (len(out) - 1, sum(len(v['units']) for k, v in out.items() if k != '__all_units__'), len(table)))
